@@ -398,6 +398,17 @@ def face_area_forms(p, all_areas):
         one = np.asarray(p.get_face_area(k), float).ravel()
         if one.size != 1 or not np.isclose(one[0], all_areas[k], rtol=1e-12, atol=0):
             probs.append("get_face_area(%d) returned %s, face %d has area %r" % (k, one.tolist(), k, float(all_areas[k])))
+        # index 0 is an index like any other; an ndarray of indices is a sequence of indices
+        z = np.asarray(p.get_face_area(0), float).ravel()
+        if z.size != 1 or not np.isclose(z[0], all_areas[0], rtol=1e-12, atol=0):
+            probs.append("get_face_area(0) returned %s, face 0 has area %r" % (z[:6].tolist(), float(all_areas[0])))
+        z = np.asarray(p.get_face_area([0]), float).ravel()
+        if z.size != 1 or not np.isclose(z[0], all_areas[0], rtol=1e-12, atol=0):
+            probs.append("get_face_area([0]) returned %s, face 0 has area %r" % (z[:6].tolist(), float(all_areas[0])))
+        if len(sel) > 1 and type(p).__name__ == "Polyhedron":   # (documented there as 'int, sequence, or None'; ConvexPolyhedron documents 'int, list of ints')
+            got = np.asarray(p.get_face_area(np.array(sel)), float)
+            if got.shape != (len(sel),) or not np.allclose(got, np.asarray(all_areas, float)[sel], rtol=1e-12, atol=0):
+                probs.append("get_face_area(ndarray %s) returned %s" % (sel[:6], got[:6].tolist()))
         if type(p).__name__ == "ConvexPolyhedron":       # (the "total" form exists only there; surface_area uses it)
             tot = float(p.get_face_area("total"))
             if not np.isclose(tot, float(np.sum(all_areas)), rtol=1e-12, atol=0):
